@@ -10,7 +10,7 @@ import random
 import uuid
 
 from . import tlc
-from .terms import clear_typelib_caches, project
+from .terms import Deadline, clear_typelib_caches, project, with_deadline
 from .typeterms import Env, values
 
 _CACHE: dict = {}
@@ -41,7 +41,9 @@ def make_env(defs):
 
 def out_of(fn, *a, **kw):
     try:
-        r = fn(*a, **kw)
+        r = with_deadline(20, fn, *a, **kw)
+    except Deadline:
+        return {"k": "raised", "e": "NonTermination"}, None
     except RecursionError:
         return {"k": "raised", "e": "RecursionError"}, None
     except Exception as e:
